@@ -533,11 +533,33 @@ func registerEnvIntrinsics() {
 		if _, ok := sb.s.ConcreteLen(); ok {
 			return nil, false
 		}
+		// ParseInt64(encodeInteger(x)) == x (lemma L-int, discharged on the real SSA by the C04 lemma harness)
+		if len(sb.s.p) == 1 && sb.s.p[0].k == pkAtom && sb.s.p[0].t.op == "uf" && sb.s.p[0].t.name == smtName("encint") {
+			return Tuple{in.fromTerm(sb.s.p[0].t.args[0], types.Typ[types.Int64]), Iface{}}, true
+		}
 		tooLong := in.tt.BVCmp("bvugt", sb.s.LenTerm(in.tt), in.tt.BVConst(8, 64))
 		if in.branch(boolVal(tooLong), "ParseInt64 length") {
 			return Tuple{Int(0), in.newError(CStr("integer too large"), nil)}, true
 		}
 		return Tuple{in.fromTerm(in.parseIntOf(sb.s), types.Typ[types.Int64]), Iface{}}, true
+	}
+	I[berPath+".encodeLength"] = func(in *Interp, fr *frame, args []Value) (Value, bool) {
+		if !in.summaries["encodeLength"] {
+			return nil, false
+		}
+		t, ok := args[0].(*Term)
+		if !ok {
+			return nil, false
+		}
+		seq := in.tt.UF("enclen", SeqSort, t)
+		ln := in.tt.UF("enclen_len", BV(64), t)
+		key := fmt.Sprintf("enclen|%d", t.id)
+		if !in.fmtAsserted[key] {
+			in.fmtAsserted[key] = true
+			in.assume(in.tt.BVCmp("bvuge", ln, in.tt.BVConst(1, 64)))
+			in.assume(in.tt.BVCmp("bvule", ln, in.tt.BVConst(9, 64)))
+		}
+		return SymBytes{s: Str{p: []piece{{k: pkAtom, t: seq, n: ln}}}}, true
 	}
 	I[berPath+".encodeInteger"] = func(in *Interp, fr *frame, args []Value) (Value, bool) {
 		if !in.summaries["encodeInteger"] {
@@ -554,6 +576,10 @@ func registerEnvIntrinsics() {
 			in.fmtAsserted[key] = true
 			in.assume(in.tt.BVCmp("bvuge", ln, in.tt.BVConst(1, 64)))
 			in.assume(in.tt.BVCmp("bvule", ln, in.tt.BVConst(8, 64)))
+			// one content octet exactly for -128..127, and then it is the low byte (from int64Length/encodeInteger)
+			small := in.tt.And(in.tt.BVCmp("bvsge", t, in.tt.BVConst(uint64(0xffffffffffffff80), 64)), in.tt.BVCmp("bvsle", t, in.tt.BVConst(127, 64)))
+			in.assume(in.tt.Eq(small, in.tt.Eq(ln, in.tt.BVConst(1, 64))))
+			in.assume(in.tt.Implies(small, in.tt.Eq(in.tt.SeqNth(seq, in.tt.IntConst(0)), in.tt.Extract(7, 0, t))))
 		}
 		return SymBytes{s: Str{p: []piece{{k: pkAtom, t: seq, n: ln}}}}, true
 	}
@@ -562,8 +588,8 @@ func registerEnvIntrinsics() {
 		if p == nil {
 			return Tuple{Str{}, in.newError(CStr("nil filter packet"), nil)}, true
 		}
-		// uninterpreted total function of the node: (string, error)
-		key := fmt.Sprintf("%p", p)
+		// uninterpreted total function of the node's content: (string, error)
+		key := in.nodeKey(p)
 		if r, ok := in.filterMemo[key]; ok {
 			return r, true
 		}
@@ -582,6 +608,45 @@ func registerEnvIntrinsics() {
 		in.filterNode[in.filterSeq] = p
 		return r, true
 	}
+}
+
+// nodeKey identifies a packet by content (identifier, data, children).
+func (in *Interp) nodeKey(p *Value) string {
+	if p == nil {
+		return "nil"
+	}
+	if n, ok := in.symNode[p]; ok {
+		return "sym:" + n.name
+	}
+	st := in.P.Ber.Type("Packet").Type().Underlying().(*types.Struct)
+	s := (*p).(Struct)
+	id := s[structFieldIndex(st, "Identifier")].(Struct)
+	var sb strings.Builder
+	for _, f := range id {
+		switch x := f.(type) {
+		case Int:
+			fmt.Fprintf(&sb, "%d,", uint64(x))
+		case *Term:
+			fmt.Fprintf(&sb, "t%d,", x.id)
+		}
+	}
+	if dp, _ := s[structFieldIndex(st, "Data")].(*Value); dp != nil {
+		if o := in.side[dp]; o != nil {
+			sb.WriteString(o.str.key())
+		}
+	}
+	kids := s[structFieldIndex(st, "Children")].(Slice)
+	if kids.symLen == nil && kids.arr != nil {
+		sb.WriteString("[")
+		for i := 0; i < kids.n; i++ {
+			if kp, ok := (*kids.arr)[kids.off+i].(*Value); ok {
+				sb.WriteString(in.nodeKey(kp))
+				sb.WriteString(";")
+			}
+		}
+		sb.WriteString("]")
+	}
+	return sb.String()
 }
 
 func parseIPLike(s string) bool {
